@@ -247,6 +247,22 @@ CHECKS = {
         note=NOTE_COMMON + " Partial: memory safety and absence of UB of the compiled C code are run-time observations on the explored inputs (sanitizers, guard pages); the theorems cover the arithmetic ranges and the slices.",
         technique="Lean 4 proof (range invariants of accumulators; range theorem) + correspondence check under ASan/UBSan and guard-page placement",
     ),
+    "C16": dict(
+        category="proof",
+        text=("Lean theorems (Edn.Properties.C16), for every schedule of failing allocation requests: the collection builder (8 in-frame slots, growth by "
+              "half, permanent copy at finish) ends in a failed add, NULL, or a heap array holding exactly the elements added in order - never its in-frame "
+              "storage, never a partial array, and NULL only for an empty collection or after a failed request; duplicate detection gives the same, exact "
+              "verdict whichever of its scratch allocations fail (hash table -> sorted -> pairwise); a refused arena request leaves the arena unchanged. "
+              "Tied to the code by builder lives under all schedules of length <=5 (7 thorough) x 5 initial capacities x 13 element counts and duplicate "
+              "checks of 2..1400 elements under the four failure combinations, through library (static functions called in the unity build with the "
+              "allocators macro-wrapped) and model. Whole-reader part is monitoring, not proof: with malloc/calloc/realloc/free/edn_arena_alloc wrapped at "
+              "link time, for every document of a corpus covering every reader, growth path, lazy materialisation and error path, every request index k is "
+              "failed alone and from k on; the call must return the complete fault-free tree (lazily materialised payloads possibly unavailable) or NULL "
+              "plus an error, leave no live block, and raise no ASan report (stack-use-after-return detection on)."),
+        design_ref="DESIGN.md section 6, C16",
+        note=NOTE_COMMON + " Partial: the reader model has no allocation parameter, so the whole-reader statement is decided only on the enumerated (document, k, mode) triples.",
+        technique="Lean 4 proof (builder invariant over arbitrary schedules; strategy-independence of the duplicate verdict) + correspondence check + exhaustive single/suffix fault enumeration under ASan",
+    ),
     "C05": dict(
         category="proof",
         text=("Lean theorems (Edn.Properties.C05), with round-to-nearest-even defined in exact natural-number arithmetic: every entry of the "
